@@ -402,6 +402,36 @@ class FloorTracer:
         else:
             raise ValueError(call)
 
+    def traced_run(self, d):
+        """simulate(trace=True) with HOME pointed at a scratch directory; returns the exported event trace
+        as [time, device, kind, priority] rows."""
+        import json as _json
+        import os
+        import shutil
+        import tempfile
+        home = tempfile.mkdtemp(prefix='simprocesd-verif-home.')
+        old = os.environ.get('HOME')
+        os.makedirs(os.path.join(home, 'Downloads'))
+        os.environ['HOME'] = home
+        try:
+            self.m.system.simulate(d, trace=True, print_summary=False)
+            path = os.path.join(home, 'Downloads', '%s_trace.json' % self.env.name)
+            with open(path) as fh:
+                data = _json.load(fh)
+        finally:
+            if old is None:
+                os.environ.pop('HOME', None)
+            else:
+                os.environ['HOME'] = old
+            shutil.rmtree(home, True)
+        rows = []
+        for i in range(len(data)):
+            e = data[str(i)]
+            kind = KIND_BY_ACTION.get(e['action'], 'script' if e['action'].startswith('script_') else e['action'])
+            asset = self.m.by_asset.get(e['asset_id'], e['asset_id'] if e['asset_id'] < 0 else 0)
+            rows.append([tk(e['time']), asset, kind, int(round(e['event_type'] * 10))])
+        return rows
+
     def run(self):
         """The run plan: one simulate per segment (horizon split at the given points)."""
         cfg = self.cfg
@@ -412,8 +442,12 @@ class FloorTracer:
             if c <= t0:
                 continue
             self.pending_begin = {'op': 'run_begin' if self.m.system._simulation_is_initialized else 'init', 'd': c - t0}
-            self.m.system.simulate((c - t0) * TICK, print_summary=False)
-            self.log({'op': 'run_end', 't0': t0, 'd': c - t0})
+            end = {'op': 'run_end', 't0': t0, 'd': c - t0, 'trace': []}
+            if cfg.get('trace'):
+                end['trace'] = self.traced_run((c - t0) * TICK)
+            else:
+                self.m.system.simulate((c - t0) * TICK, print_summary=False)
+            self.log(end)
             t0 = c
             for i, sc in enumerate(cfg.get('script') or []):
                 if sc.get('between') and sc['t'] == c:
